@@ -66,6 +66,18 @@ def tr_decoders(log):
     return info
 
 
+def tr_webauthn(log):
+    """regenerate Generated/WebauthnSchema.lean from the serde attributes of the WebAuthn option structs and enums"""
+    import importlib.util, os
+    here = os.path.dirname(os.path.abspath(__file__))
+    spec = importlib.util.spec_from_file_location("webauthn_tr", os.path.join(here, "..", "..", "translate", "webauthn.py"))
+    m = importlib.util.module_from_spec(spec)
+    spec.loader.exec_module(m)
+    info = m.main()
+    log.write("translator webauthn: %s\n" % info)
+    return info
+
+
 def tr_ctap(log):
     """regenerate Generated/Ctap.lean from /repo/passkey-types/src/ctap2/*.rs"""
     import importlib.util, os
@@ -104,19 +116,22 @@ PROPS = {
     "C14": {
         "modules": ["PasskeyVerif.Props.C14"],
         "props_files": ["PasskeyVerif/Props/C14.lean"],
-        "translators": [tr_decoders],
+        "translators": [tr_decoders, tr_webauthn],
         "harness": [["gen", "C14"]],
-        "technique": "Lean 4 theorems (all byte strings / all texts) over hand-written models of the base64 helpers, the Bytes visitor, StringOrNum and the client-data member order; differential correspondence on every leaf input; metamorphic stream on the real serde-derived parsers for the struct-level statements",
+        "technique": "Lean 4 theorems (all byte strings / all texts / all JSON objects) over hand-written models of the base64 helpers, the Bytes visitor, StringOrNum and the client-data member order, and over a model of the serde-derived struct parsers that interprets a schema regenerated from the serde attributes of the option structs on every run (kernel-checked obligations over that schema); differential correspondence on every leaf input and every option document; metamorphic stream on the real parsers",
         "trusted": COMMON_TRUSTED + [
-            "modelled by hand: encoding::{base64url, base64, try_from_base64url, try_from_base64} and Bytes::try_from(&str) (Base/Base64.lean), Bytes::deserialize on JSON values, StringOrNum / maybe_stringified / i64_to_iana (Model/WebauthnJson.lean; decimal texts with more than 15 significant digits are outside the model), the member order of a re-serialised CollectedClientData",
-            "NOT modelled: the serde-derived Deserialize / Serialize of the option and credential structs (member lookup, defaults, ignore_unknown, PossiblyUnknown, flatten): every presentation of a value is parsed by the real code and must give the same Debug rendering; emitted credentials are re-parsed and re-serialised by the real code",
-            "JSON reader Base/Json.lean (with an RFC 8259 number check in the driver) stands for serde_json's tokeniser; coset 0.3.8's table of known COSE algorithms is a parameter of the driver",
+            "modelled by hand: encoding::{base64url, base64, try_from_base64url, try_from_base64} and Bytes::try_from(&str) (Base/Base64.lean), Bytes::deserialize on JSON values, StringOrNum / maybe_stringified / i64_to_iana (Model/WebauthnJson.lean; decimal texts with more than 15 significant digits are outside the model)",
+            "translator translate/webauthn.py: struct members (JSON name via rename_all/rename, aliases, type, default, deserialize_with/with helper) and enum variants (rename_all/rename/alias, #[default]) of the 12 structs and 8 enums reachable from CredentialRequestOptions / CredentialCreationOptions; fails closed on any attribute, type or shape it does not know (e.g. serde(other), deny_unknown_fields, flatten); cross-checked by the js.opts stream (the interpreted schema against the real derived parsers on every document)",
+            "modelled by hand: what #[derive(Deserialize)] generates for such a schema read by serde_json (member lookup, skipping unknown members, duplicate detection, defaults and implicit None, Option/Vec/HashMap/enum/struct shapes) and the helpers ignore_unknown (streaming and buffered), ignore_unknown_opt_vec / ignore_unknown_vec over PossiblyUnknown (Model/SerdeStruct.lean); outside the model (verdict na, implementation output echoed): the positional (array) form of a struct, a struct that fails to parse under a streaming ignore_unknown, numbers beyond 15 significant digits",
+            "NOT modelled: Serialize of the credential structs and CollectedClientData's flatten: emitted credentials are re-parsed by the real code and compared (stream only)",
+            "JSON reader Base/Json.lean (with an RFC 8259 number check in the driver) stands for serde_json's tokeniser; coset 0.3.8's table of known COSE algorithms is a parameter of the theorems and a table in the driver",
             "translator translate/decoders.py: PossiblyUnknown is the buffered (untagged) form",
         ],
-        "assumptions": ["an entry whose `type` is an unknown string is kept with the Unknown variant (the string is ignored, not the entry): such entries are the same in every presentation of a value"],
-        "level_text": "PARTIAL. Kernel-checked for every byte string: base64url encoding followed by Bytes::try_from is the identity, the text is unpadded and url-safe, and standard base64 text with any amount of padding decodes to the same bytes; under the model of the Bytes visitor a binary member parses to the same bytes as base64url text, as base64 text (padded or not) and as an array of number tokens denoting its bytes; under the model of StringOrNum a number token, a numeric string and an integral float denoting the same in-range value all parse to it, and out-of-range values are errors; re-serialised client data lists type, challenge, origin, crossOrigin first and then the other members as a sublist of the input in its order. Not proved: the serde-derived struct parsers. The stream compares the leaf models with the real parser on 700 leaf texts, and for 40 (thorough 300) option values parses 10 presentations each (all binary / numeric presentations, member orders, injected unknown members at every level, unknown enumeration strings, unknown list entries with the offending member first / in the middle / last) requiring one and the same parsed value; 29 emitted credentials re-parse and re-serialise identically; 80 client-data documents with shuffled members keep the specified order.",
-        "level_note": "Trusted: Lean kernel; axioms propext/Classical.choice/Quot.sound; hand models (compared on every leaf input); JSON reader; the metamorphic stream. Fixed defect (ecc6514): an unknown list entry was dropped only when its offending member came last in the object.",
-        "rule": "leaf texts: 80 (thorough 600) byte strings x 5 presentations, 20 malformed binary texts, 61 curated number texts (signs, exponents, fractions, range boundaries, inf/NaN spellings, blanks, hex, separators, 15 / 16 significant digits) + 80 (600) random ones, each as timeout and as algorithm identifier; 40 (300) option values (request / creation alternating, every optional member present or absent) x 10 presentations; 15 (100) register+authenticate pairs re-parsed; 300 (2000) base64url round trips; 80 (600) client-data documents.",
+        "assumptions": ["an entry whose `type` is an unknown string is kept with the Unknown variant (the string is ignored, not the entry): such entries are the same in every presentation of a value",
+                        "serde_json reads an object member by member in text order and a derived visitor behaves as Model/SerdeStruct.lean says (checked on every document of the stream)"],
+        "level_text": "Kernel-checked for every byte string: base64url encoding followed by Bytes::try_from is the identity, the text is unpadded and url-safe, and standard base64 text with any amount of padding decodes to the same bytes; under the model of the Bytes visitor a binary member parses to the same bytes as base64url text, as base64 text (padded or not) and as an array of number tokens; under the model of StringOrNum a number token, a numeric string and an integral float denoting the same in-range value all parse to it; re-serialised client data lists type, challenge, origin, crossOrigin first and then the other members in input order. Kernel-checked for every schema, every JSON object and every position under the model of the derived struct parsers: a member that is no field is ignored whatever its value; an unknown enumeration string read through ignore_unknown gives the default, not an error; list entries that do not parse are dropped and the others kept in order; the parsed struct depends on a binary / numeric member only through the bytes / number it denotes (instantiated end to end for the challenge of the regenerated request options). Kernel-checked over the schema regenerated from the source on every run: the required members are exactly the WebAuthn-required ones (every other member may be absent), every enumeration member and every list of enumerations / descriptors / parameters is read through the lenient helper, defaults name variants, member names are distinct. PARTIAL only in that the re-parse of emitted credentials (Serialize side) is checked by the stream alone. Stream: 700 leaf texts against the leaf models; 900 (thorough 7000) option documents (mostly valid and malformed: members absent / null / wrong type / duplicated / aliased, unknown members and values anywhere) with the interpreted schema against the real parsers; 40 (300) option values x 10 presentations requiring one parsed value; emitted credentials re-parsed; base64url round trips; client-data documents.",
+        "level_note": "Trusted: Lean kernel; axioms propext/Classical.choice/Quot.sound; translator webauthn.py (fails closed; cross-checked by the stream); hand models (compared on every input); JSON reader. Fixed defect (ecc6514): an unknown list entry was dropped only when its offending member came last in the object.",
+        "rule": "leaf texts: 80 (thorough 600) byte strings x 6 presentations, 20 malformed binary texts, 61 curated number texts + 80 (600) random ones, each as timeout and as algorithm identifier; 500 (4000) generated option documents over 7 root types, two thirds mostly valid (4% bad members), one third malformed (30%), plus each presentation of the metamorphic groups; 40 (300) option values x 10 presentations; 15 (100) register+authenticate pairs re-parsed; 300 (2000) base64url round trips; 80 (600) client-data documents.",
     },
     "C15": {
         "modules": ["PasskeyVerif.Props.C15"],
